@@ -59,7 +59,10 @@ const (
 	longHead  = `query Long($s: String = "dflt", $n: Int = 1) { a: echo(s: $s) items(n: $n) { id name } big(n: 3) mirror: echo(s: "raw:") f1: q1 f2: q2 f3: q3 i2: items(n: 2) { id name sub { id name } } e2: echo(s: "a fairly long literal so that the shared prefix exceeds two hundred and fifty characters") `
 )
 
-var simpleDocs = []string{`query A { q1 }`, `query A { q2 }`, `{ q3 }`, `{ q1 }`, `{ q1 } `, `{ q1 } #x`, `query A { q1 q2 }`}
+var simpleDocs = []string{`query A { q1 }`, `query A { q2 }`, `{ q3 }`, `{ q1 }`, `{ q1 } `, `{ q1 } #x`, `query A { q1 q2 }`,
+	// introspection walks (and must not write to) the schema every later request is validated against
+	`{ __type(name: "Query") { fields { name type { kind ofType { kind name } } args { name type { kind ofType { kind name ofType { kind name } } } } } } }`,
+	`{ __schema { types { name fields { name type { kind ofType { kind ofType { kind ofType { kind name } } } } } inputFields { name type { kind ofType { kind name } } } } } }`}
 var invalidDocs = []string{`{ nope }`, `{ q1`, ``, `query A { q1 } query A { q2 }`, `{ item { id } }`, `query Q($u: Int) { q1 }`, `}`}
 var longTails = []string{`tail: q1 }`, `tail: q2 }`, `tail: q3 }`, `tail: q1 } # c`, `tail: nn tail2: q2 }`}
 
